@@ -18,6 +18,8 @@ type VStr struct {
 	Conc  *string
 	Atom  *Term  // uninterpreted identity (Int id)
 	Bytes []Term // byte-level, concrete length
+	N     int    // declared length of an atom (0 = unknown)
+	Hexed bool   // the atom stands for the hex text of the identified bytes
 }
 type VStruct struct{ F []Value }
 type VArr struct{ E []Value }
@@ -94,10 +96,16 @@ func isBigIntLike(t types.Type) bool {
 }
 
 func (ex *Exec) zero(t types.Type) Value {
-	if isBigIntLike(t) || namedPath(t) == "time.Time" {
+	switch np := namedPath(t); {
+	case isBigIntLike(t), np == "math/big.Int":
 		return VInt{IntC(0)}
-	}
-	if strings.HasPrefix(namedPath(t), "cosmossdk.io/collections.") {
+	case np == "time.Time":
+		return VInt{IntB(zeroTimeNanos)}
+	case np == "github.com/cosmos/cosmos-sdk/types.Context":
+		return ex.newCtx()
+	case np == "sync.Mutex" || np == "sync.RWMutex":
+		return VOpaque{Kind: "mutex"}
+	case strings.HasPrefix(np, "cosmossdk.io/collections.") && !strings.HasPrefix(np, "cosmossdk.io/collections.Pair") && !strings.HasPrefix(np, "cosmossdk.io/collections.Triple") && !strings.HasPrefix(np, "cosmossdk.io/collections.KeyValue") && !strings.HasPrefix(np, "cosmossdk.io/collections.Range"):
 		return VOpaque{Kind: "coll-zero"}
 	}
 	switch u := t.Underlying().(type) {
